@@ -45,8 +45,9 @@ KeySeq == <<"a", "b">>
 ObjU(V) == LET KS == {KeySeq[j] : j \in 1..Len(KeySeq)}
            IN UNION {[K -> V] : K \in SUBSET KS}
 
-\* string tokens: a, b, LF, CR, VT, NEL, LS  (CR LF arises from CR then LF)
-TokU == {<<97>>, <<98>>, <<10>>, <<13>>, <<11>>, <<133>>, <<8232>>}
+\* string tokens: a, b, LF, CR, VT, NEL, LS  (CR LF arises from CR then LF) and one character outside the Basic
+\* Multilingual Plane (U+1F600: one code point for Python, two UTF-16 units for JavaScript)
+TokU == {<<97>>, <<98>>, <<10>>, <<13>>, <<11>>, <<133>>, <<8232>>, <<128512>>}
 
 DocU ==
   CASE Universe = "lists"   -> {List(s) : s \in SeqsUpTo(AtomU, MaxLen)}
